@@ -61,6 +61,16 @@ Theorem categorical_estimate_is_maximiser : forall ct,
   ll_categorical ct <= ll_categorical (cat_mle ct).
 Proof. exact categorical_max. Qed.
 
+(* the log-scale accumulation of exponential.go / poisson.go / geometric.go / categorical.go / EmStep
+   (LogAdd folds starting at -Inf = None) computes, over R, exactly the linear sums the closed forms use:
+   exp(LogAdd(a, b)) = exp a + exp b with exp(-Inf) = 0, and the fold is the sum *)
+Theorem logadd_is_addition_on_linear_scale : forall a b,
+  lexpR (logadd NumR exp LOG1P_R a b) = lexpR a + lexpR b.
+Proof. exact logadd_R. Qed.
+Theorem logadd_fold_is_linear_sum : forall ts acc,
+  lexpR (fold_left (logadd NumR exp LOG1P_R) ts acc) = lexpR acc + fold_right (fun t s => lexpR t + s) 0 ts.
+Proof. exact logsum_R. Qed.
+
 (* (2) EM ascent for finite mixtures: n data with multiplicities / outer weights c, K components,
    old weights pi and densities f k l, new weights = normalised responsibility sums, new densities f'
    such that no component's responsibility-weighted log-likelihood decreased (by (1) for the exact
